@@ -80,7 +80,12 @@ class SpatialTransformer(Module):
     ) -> Union[TSpatialTransformer, Tuple[tuple, dict]]:
         r"""Get or set data tensors and parameters on which transformation is conditioned."""
         if args or kwargs:
-            return shallow_copy(self).condition_(*args, **kwargs)
+            # The shallow copy shares the dictionary of submodules with this transformer: give it its own
+            # before replacing the transform, such that this transformer keeps its (differently conditioned) one
+            copy = shallow_copy(self)
+            copy._modules = self._modules.copy()
+            copy._transform = self._transform.condition(*args, **kwargs)
+            return copy
         return self._transform.condition()
 
     def condition_(self: TSpatialTransformer, *args, **kwargs) -> TSpatialTransformer:
